@@ -748,6 +748,35 @@ pub fn run_case(case: &Case, stats: &mut Stats) -> RunReport {
     }
     let mut classes = std::collections::BTreeSet::new();
     let mut seam_events = 0u64;
+    // ---- P6: `batteries::get_usage(parser)` is documented as the text `--help` prints
+    {
+        let help_line = [b"--help".to_vec()];
+        let twin = exec::build_unchecked(opts);
+        let pred = exec::run_inner(&twin, &help_line, &None, None, None, crate::c04::BUDGET_BASE);
+        drop(twin);
+        if let Outcome::Stdout(text) = &pred.outcome {
+            let twin = exec::build_unchecked(opts);
+            let got = std::panic::catch_unwind(std::panic::AssertUnwindSafe(move || {
+                bpaf::batteries::get_usage(twin)
+            }));
+            stats.bump("rule.P6.evaluated");
+            let ok = matches!(&got, Ok(u) if u == text);
+            if !ok {
+                report.violation = Some(Violation {
+                    rule: "P6".into(),
+                    op_index: 0,
+                    key: "rule=P6 get_usage".into(),
+                    detail: format!(
+                        "batteries::get_usage differs from what `--help` prints\n--help   : {:?}\nget_usage: {:?}",
+                        exec::clip(text, 400),
+                        got.as_ref().map(|u| exec::clip(u, 400)).unwrap_or_else(|_| "<panicked>".into())
+                    ),
+                });
+                report.hash = h.finish();
+                return report;
+            }
+        }
+    }
     macro_rules! violation {
         ($rule:expr, $ix:expr, $key:expr, $detail:expr) => {{
             let key: String = $key;
